@@ -315,10 +315,9 @@ class Doc:
         return 'R(' + self.text + ')'
 
 
-T_PEROBJ = GT2('<dtml-in docs><dtml-try><dtml-var sequence-item fmt=report><dtml-except>REFUSED</dtml-try>,</dtml-in>')
-T_PEROBJ.cook()
-T_PEROBJ2 = GT2('<dtml-try><dtml-var d fmt=report><dtml-except>REFUSED</dtml-try>|<dtml-try><dtml-var "d.report()"><dtml-except>REFUSED</dtml-try>|<dtml-with d><dtml-try><dtml-var report><dtml-except>REFUSED</dtml-try></dtml-with>')
-T_PEROBJ2.cook()
+SRC_PEROBJ = '<dtml-in docs><dtml-try><dtml-var sequence-item fmt=report><dtml-except>REFUSED</dtml-try>,</dtml-in>'
+SRC_PEROBJ2 = ('<dtml-try><dtml-var d fmt=report><dtml-except>REFUSED</dtml-try>|<dtml-try><dtml-var "d.report()"><dtml-except>REFUSED</dtml-try>|'
+               '<dtml-with d><dtml-try><dtml-var report><dtml-except>REFUSED</dtml-try></dtml-with>')
 
 
 def ob_guard_per_object(c0: bool, c1: bool, c2: bool, s: str) -> bool:
@@ -332,6 +331,9 @@ def ob_guard_per_object(c0: bool, c1: bool, c2: bool, s: str) -> bool:
 
 
 def _per_object(cs, s):
+    # fresh template objects per path: what one path leaves on a compiled tag must not decide another path's verdict
+    T_PEROBJ = GT2(SRC_PEROBJ)
+    T_PEROBJ2 = GT2(SRC_PEROBJ2)
     G.log, G.deny_attr, G.deny_item = [], (), ()
     docs = [Doc('d%d' % i + (s if cs[i] else ''), cs[i]) for i in range(3)]
     out = T_PEROBJ(docs=docs)
